@@ -12,8 +12,9 @@ import GqlModel.Schema.Types
     order; `defs` (the Go slice of all definitions incl. the ones created by extensions) is exactly
     the value list of that association list, because both are extended at the same moments.
   * `PossibleTypes` / `Implements` hold `Option Name` while loading: `none` is the nil pointer that
-    `schema.Types[t]` yields for an undeclared name.  `isCovariant` dereferences those entries
-    (`pt.Name`), which is the one reachable panic of the loader; it is the `panic` outcome here.
+    `schema.Types[t]` yields for an undeclared name.  `isCovariant` dereferences the entries
+    (`pt.Name`): a nil entry would be the `panic` outcome.  Since the repair of the loader no nil
+    entry is stored (`pushPtr`), and `C07_load_no_panic` proves the outcome unreachable.
   * Map iterations: schema.go:198 and :213 collect the keys and `sort.Strings` them — reproduced
     with `sortNames` (bytewise order).  There is no other `range` over a map in schema.go.
   * Errors carry the rendered message bytes and (line, column, source index) of the position given
